@@ -125,7 +125,24 @@ let run (line : string) : string =
     full (e_val (get (contract g (narg 2) (narg 3))))
   | "prufer" -> wfonly (d (prufer_decode (List.map ni (itoks ()))))
   | "multicode" -> wfonly (d (multicode_decode (List.map z_of_int (itoks ()))))
-  | "graph6" | "sparse6" -> "wf"
+  | "consplit" ->
+    (* Contract(i, j), observed, then SplitEdge(k, l) on the same graph (re-slices into the stale
+       tail RemoveVertex left in a DenseGraph's backing array), observed again *)
+    let g = editable (build (List.nth args 0) (arg 1) (List.map edge_of toks)) in
+    let g1 = get (contract g (narg 2) (narg 3)) in
+    let d1 = full (e_val g1) in
+    d1 ^ " => " ^ full (e_val (get (split_edge g1 (narg 4) (narg 5))))
+  | "graph6" ->
+    (* C08's decoder model completed by NewDense (Graph/CtorDecodeModel.v); a decode error is "wf" *)
+    (match graph6_decode_graph (List.map z_of_int (itoks ())) with
+     | Ok (g, false) -> wfonly (GD g)
+     | Ok (_, true) -> "wf"
+     | _ -> "panic")
+  | "sparse6" ->
+    (match sparse6_decode_graph (List.map z_of_int (itoks ())) with
+     | Ok (g, false) -> wfonly (GS g)
+     | Ok (_, true) -> "wf"
+     | _ -> "panic")
   | _ -> failwith ("unknown kind " ^ kind)
 
 let () =
